@@ -13,6 +13,7 @@ fn main() {
         "ring-replay" => ring::cmd_replay(rest),
         "ring-trace" => ring::cmd_trace(rest),
         "graph-run" => graphs::cmd_run(rest),
+        "mtgraph-run" => graphs::cmd_mt_run(rest),
         "mt-random" => mt::cmd_random(rest),
         "mt-replay" => mt::cmd_replay(rest),
         _ => {
